@@ -122,6 +122,8 @@ type useRec struct {
 type nodeExt struct {
 	M     int
 	Items []Item
+	Ss    []int // ashape: the three script parameters
+	Conds int   // ashape: the condition bits
 }
 
 
@@ -201,6 +203,36 @@ func (e *Env) buildC12(n *Node) templ.Component {
 		return e.counted(useRec{Kind: "classof", Css: en(x.Items...)}, corpus.ClassOf(anys))
 	case "classtwo":
 		return e.counted(useRec{Kind: "classtwo", Css: en(item(0), item(1))}, corpus.ClassTwo(item(0).toAny(u), item(1).toAny(u)))
+	case "ashape":
+		// a member of the seeded attribute-list family: which handlers and classes the element
+		// ends up with follows from the condition bits
+		ast := ashapeASTs[n.N%len(ashapeASTs)]
+		conds := shapeConds(x.Conds)
+		var scripts []int
+		var classItems []Item
+		var walk func(ns []*shNode)
+		walk = func(ns []*shNode) {
+			for _, a := range ns {
+				switch a.K {
+				case "on":
+					scripts = append(scripts, si(x.Ss[a.I]))
+				case "class":
+					for _, i := range a.Is {
+						classItems = append(classItems, item(i))
+					}
+				case "cond":
+					if conds[a.I] {
+						walk(a.Then)
+					} else {
+						walk(a.Else)
+					}
+				}
+			}
+		}
+		walk(ast)
+		ss := []templ.ComponentScript{sc(x.Ss[0]), sc(x.Ss[1]), sc(x.Ss[2])}
+		ks := []any{item(0).toAny(u), item(1).toAny(u), item(2).toAny(u)}
+		return e.counted(useRec{Kind: "ashape", Scripts: scripts, Css: en(classItems...), Marker: n.S}, corpus.AShapes[n.N%len(corpus.AShapes)](n.S, ss, ks, conds))
 	case "classcond":
 		used := item(0)
 		if !n.B {
@@ -235,7 +267,7 @@ func genItem(t *kernel.Tape, depth int) Item {
 
 // genUseLeaf draws one use of a script, css class or once handle.
 func genUseLeaf(t *kernel.Tape, ext map[*Node]*nodeExt, nOnce int) *Node {
-	uses := []string{"rawscript", "rawscript", "rawscript", "text", "text", "usescript", "onclick", "ontwo", "oncond", "onhx", "classof", "classtwo", "classcond", "oncemark", "oncewith", "lit", "text"}
+	uses := []string{"rawscript", "rawscript", "rawscript", "text", "text", "usescript", "onclick", "ontwo", "oncond", "onhx", "classof", "classtwo", "classcond", "oncemark", "oncewith", "lit", "text", "ashape", "ashape", "ashape"}
 	k := uses[t.Choose(len(uses), "usekind")]
 	n := &Node{K: k, N: t.Choose(16, "n"), B: t.Bool("b")}
 	x := &nodeExt{M: t.Choose(16, "m")}
@@ -247,6 +279,12 @@ func genUseLeaf(t *kernel.Tape, ext map[*Node]*nodeExt, nOnce int) *Node {
 		}
 	case "classtwo", "classcond":
 		x.Items = []Item{genItem(t, 1), genItem(t, 1)}
+	case "ashape":
+		n.N = t.Choose(len(ashapeASTs), "ashape")
+		n.S = fmt.Sprintf("a%d", t.Choose(1000, "aid"))
+		x.Items = []Item{genItem(t, 1), genItem(t, 1), genItem(t, 1)}
+		x.Ss = []int{t.Choose(16, "s0"), t.Choose(16, "s1"), t.Choose(16, "s2")}
+		x.Conds = t.Choose(8, "conds")
 	case "oncemark":
 		n.N = n.N % nOnce
 		n.S = fmt.Sprintf("h%d-%d", n.N, t.Choose(1000, "marker"))
@@ -310,6 +348,7 @@ var (
 	reOnCondT   = regexp.MustCompile(`<input\s+type="button"\s+onclick="([^"]*)"\s*/?>`)
 	reOnCondF   = regexp.MustCompile(`<input\s+type="button"\s+onfocus="([^"]*)"\s*/?>`)
 	reOnHx      = regexp.MustCompile(`<button\s+hx-on::click="([^"]*)"\s+type="button"\s*>b3</button>`)
+	reAShape    = regexp.MustCompile(`<button\s+data-sh="[^"]*"([^>]*)>ash</button>`)
 	reOnceUse   = regexp.MustCompile(`<once-use>(h(\d+)-\d+)</once-use>`)
 	reOnceBody  = regexp.MustCompile(`<once-body>(h(\d+)-\d+)</once-body>`)
 )
@@ -362,7 +401,7 @@ func checkC12(rc *kernel.RunCtx, k *kernel.Kernel, who string, doc string, uses 
 		return true
 	}
 	ok := match("classof", reClassOf) && match("classtwo", reClassTwo) && match("classcond", reClassCond) && match("onclick", reOnClick) &&
-		match("ontwo", reOnTwo) && match("oncond-t", reOnCondT) && match("oncond-f", reOnCondF) && match("onhx", reOnHx)
+		match("ontwo", reOnTwo) && match("oncond-t", reOnCondT) && match("oncond-f", reOnCondF) && match("onhx", reOnHx) && match("ashape", reAShape)
 	if !ok {
 		return
 	}
@@ -386,6 +425,29 @@ func checkC12(rc *kernel.RunCtx, k *kernel.Kernel, who string, doc string, uses 
 			for i, si := range l.rec.Scripts {
 				if l.val[i] != u.Scripts[si].Call {
 					fail("C12/use-call-wrong:"+l.rec.Kind, "attribute holds %q, want the call %q", l.val[i], u.Scripts[si].Call)
+					return
+				}
+			}
+		case "ashape":
+			for _, si := range l.rec.Scripts {
+				if !strings.Contains(l.val[0], `="`+u.Scripts[si].Call+`"`) {
+					fail("C12/use-call-wrong:ashape", "element %s has attributes %q, which lack the handler call %q", l.rec.Marker, l.val[0], u.Scripts[si].Call)
+					return
+				}
+			}
+			names := []string{}
+			if m := regexp.MustCompile(`class="([^"]*)"`).FindStringSubmatch(l.val[0]); m != nil {
+				names = strings.Fields(m[1])
+			}
+			for _, ci := range l.rec.Css {
+				found := false
+				for _, nm := range names {
+					if nm == u.Css[ci].ID {
+						found = true
+					}
+				}
+				if !found {
+					fail("C12/use-class-name-missing:ashape", "element %s has attributes %q, which lack the class %s", l.rec.Marker, l.val[0], u.Css[ci].ID)
 					return
 				}
 			}
@@ -529,6 +591,14 @@ type c12ctx struct {
 	err    error
 	viaMW  bool
 	status int
+	// errPage: the page fails after rendering everything (buffered handler), and the configured
+	// error handler answers with a templ page of its own (errSpec, tracked by errEnv). The
+	// document the client gets is the error page alone.
+	viaHandler bool
+	errPage    bool
+	errSpec    *Node
+	errEnv     *Env
+	errServed  bool
 }
 
 func c12World(rc *kernel.RunCtx) {
@@ -560,8 +630,10 @@ func c12World(rc *kernel.RunCtx) {
 		u.OnceWith = append(u.OnceWith, with)
 		if with {
 			uni.Onces = append(uni.Onces, templ.NewOnceHandle(templ.WithComponent(corpus.Block(fmt.Sprintf("OW-h%d", i)))))
-		} else {
+		} else if i == 0 {
 			uni.Onces = append(uni.Onces, templ.NewOnceHandle())
+		} else {
+			uni.Onces = append(uni.Onces, &templ.OnceHandle{}) // declared, not constructed
 		}
 	}
 	middleware := t.Chance(1, 4, "middleware")
@@ -587,15 +659,23 @@ func c12World(rc *kernel.RunCtx) {
 		if middleware && t.Chance(2, 5, "client-leaves-mid-render") {
 			c.cancelAt = t.Choose(3, "cancel-at")
 		}
+		if !middleware && t.Chance(1, 5, "served-by-handler") {
+			c.viaHandler = true
+		}
+		if (middleware || c.viaHandler) && !c.stream && c.cancelAt < 0 && t.Chance(1, 3, "failing-page-with-templ-error-page") {
+			c.errPage = true
+			b := t.Range(1, rc.Param("max_nodes", 30), "err-budget")
+			c.errSpec = &Node{K: "seq", Kids: []*Node{genC12(t, ext, &b, 0, nOnce)}}
+		}
 		nr := t.Range(1, 3, "renders-in-context")
-		if middleware {
+		if middleware || c.viaHandler {
 			nr = 1
 		}
 		for j := 0; j < nr; j++ {
 			b := t.Range(1, rc.Param("max_nodes", 30), "budget")
 			c.specs = append(c.specs, &Node{K: "seq", Kids: []*Node{genC12(t, ext, &b, 0, nOnce)}})
 		}
-		if faultsLeft > 0 && !middleware && t.Chance(1, 3, "faulty-context") {
+		if faultsLeft > 0 && !middleware && !c.viaHandler && t.Chance(1, 3, "faulty-context") {
 			faultsLeft--
 			c.fault = Fault{Kind: []string{"short", "zero"}[t.Choose(2, "fk")], At: t.Choose(400, "fat")}
 		}
@@ -614,19 +694,40 @@ func c12World(rc *kernel.RunCtx) {
 		c.w = &core{fault: c.fault, sticky: true, park: park, limit: 512 << 10}
 		k.Go(func() {
 			k.Park(c.name, "start", "", nil)
-			if c.viaMW {
+			if c.viaMW || c.viaHandler {
 				comp := c.env.buildTracked(c.specs[0])
 				rec := newRecorder()
 				var hopts []func(*templ.ComponentHandler)
 				if c.stream {
 					hopts = append(hopts, templ.WithStreaming())
 				}
-				pageMW := templ.NewCSSMiddleware(templ.Handler(comp, hopts...), regClasses...)
-				pageMW.CSSHandler = mw.CSSHandler // the handler state (registered classes) is the shared one
+				if c.errPage {
+					page := comp
+					comp = templ.ComponentFunc(func(ctx context.Context, w io.Writer) error {
+						if err := page.Render(ctx, w); err != nil {
+							return err
+						}
+						return errInjected // everything was rendered, then the page fails
+					})
+					c.errEnv = newEnv(uni)
+					fixOnce(c.errEnv)
+					c.errEnv.Hook = c.env.Hook
+					errComp := c.errEnv.buildTracked(c.errSpec)
+					hopts = append(hopts, templ.WithErrorHandler(func(r *http.Request, err error) http.Handler {
+						c.errServed = true
+						return templ.Handler(errComp)
+					}))
+				}
+				var h http.Handler = templ.Handler(comp, hopts...)
+				if c.viaMW {
+					pageMW := templ.NewCSSMiddleware(h, regClasses...)
+					pageMW.CSSHandler = mw.CSSHandler // the handler state (registered classes) is the shared one
+					h = pageMW
+				}
 				rctx, cancel := context.WithCancel(context.Background())
 				defer cancel()
 				c.env.Cancel, c.env.CancelAt = cancel, c.cancelAt
-				pageMW.ServeHTTP(parkRecorder{rec, park}, httptest.NewRequest(http.MethodGet, "/page", nil).WithContext(rctx))
+				h.ServeHTTP(parkRecorder{rec, park}, httptest.NewRequest(http.MethodGet, "/page", nil).WithContext(rctx))
 				c.w.got, c.status = rec.body.Bytes(), rec.status
 				return
 			}
@@ -685,7 +786,18 @@ func c12World(rc *kernel.RunCtx) {
 			k.Count("fault_request_context_cancelled_mid_render", 1)
 			continue
 		}
-		if c.viaMW && c.status != http.StatusOK {
+		if c.errPage {
+			// the client got the error page and nothing else: that document has to be complete
+			if !c.errServed {
+				rc.Fail("C12/error-handler-not-used", "%s: the page failed but the configured error handler was not asked", who)
+				continue
+			}
+			k.Count("fault_page_failed_and_templ_error_page_served", 1)
+			totalUses += len(c.errEnv.Uses)
+			checkC12(rc, k, who+fmt.Sprintf(" [error page %v served after the page itself failed and was discarded]", c.errSpec), string(c.w.got), c.errEnv.Uses, u, nOnce)
+			continue
+		}
+		if (c.viaMW || c.viaHandler) && c.status != http.StatusOK {
 			rc.Fail("C12/middleware-page-failed", "%s: status %d", who, c.status)
 			continue
 		}
@@ -763,7 +875,9 @@ func keys(m map[string]bool) []string {
 
 func describeC12(n *Node, ext map[*Node]*nodeExt) string {
 	s := n.K
-	if x := ext[n]; x != nil && (len(x.Items) > 0 || n.K == "ontwo" || n.K == "oncond") {
+	if x := ext[n]; x != nil && n.K == "ashape" {
+		s += fmt.Sprintf("{%s; conds %v scripts %v classes %v}", describeShape(ashapeASTs[n.N%len(ashapeASTs)]), shapeConds(x.Conds), x.Ss, x.Items)
+	} else if x != nil && (len(x.Items) > 0 || n.K == "ontwo" || n.K == "oncond") {
 		s += fmt.Sprintf("{n=%d m=%d b=%v items=%v}", n.N, x.M, n.B, x.Items)
 	} else if n.S != "" || n.N != 0 {
 		s += fmt.Sprintf("[%s,%d,%v]", n.S, n.N, n.B)
